@@ -435,8 +435,10 @@ func rt_16(c *core.Ctx, p *core.Prog) {
 }
 
 func init() {
+	for _, prop := range []string{"C01", "C03"} {
+		register(prop, &core.Rule{ID: "RT.15", Title: "a column is written null on a zero test only when every value its non-null append carries was tested", Mod: core.ModRoot, Floor: 1, FloorBy: map[string]int{"C01": 1, "C03": 2}, Run: rt_15})
+	}
 	for _, prop := range []string{"C01", "C02", "C03"} {
-		register(prop, &core.Rule{ID: "RT.15", Title: "a column is written null on a zero test only when every value its non-null append carries was tested", Mod: core.ModRoot, Floor: 3, Run: rt_15})
-		register(prop, &core.Rule{ID: "RT.16", Title: "an id column is null only when nothing is accumulated under the id; the id counter advances with every id written", Mod: core.ModRoot, Floor: 4, Run: rt_16})
+		register(prop, &core.Rule{ID: "RT.16", Title: "an id column is null only when nothing is accumulated under the id; the id counter advances with every id written", Mod: core.ModRoot, Floor: 2, FloorBy: map[string]int{"C01": 5, "C02": 2, "C03": 2}, Run: rt_16})
 	}
 }
